@@ -352,6 +352,24 @@ def cli_part(ck, protected):
     for j in coq_eval_bad('C20', REQ, 'str * bool', 'corr_pick', pick_terms, label='pick'):
         ck.violation('impl-violation', {'file': pick_terms[j]}, why='the directory search picked up a file that does not end in .asn/.asn1, or missed one')
     ck.coverage['cli_runs'] = len(metas)
+    # a standard output that cannot be written (/dev/full): the tool must fail; /dev/null: it must succeed
+    src_path = os.path.join(CACHE, 'tmp', 'c20_stdout_probe.asn1')
+    os.makedirs(os.path.dirname(src_path), exist_ok=True)
+    with open(src_path, 'w') as f:
+        f.write('Sp DEFINITIONS AUTOMATIC TAGS ::= BEGIN\nAa ::= INTEGER (0..5)\nEND\n')
+    for dev, want_ok in (('/dev/full', False), ('/dev/null', True)):
+        if not os.path.exists(dev):
+            continue
+        for backend in ('rasn', 'typescript'):
+            with open(dev, 'wb') as out:
+                p = subprocess.run([cli, '-m', src_path, '--stdout', '-b', backend], stdout=out, stderr=subprocess.PIPE, timeout=120)
+            ck.note_case('cli-stdout:%s:%s' % (dev, backend))
+            ck.count('cli:stdout-device')
+            if (p.returncode == 0) != want_ok:
+                ck.violation('impl-violation', {'args': ['-m', '<module>', '--stdout', '-b', backend], 'stdout': dev}, exit=p.returncode,
+                             stderr=p.stderr.decode('utf-8', 'replace')[-300:],
+                             why='standard output %s: the tool %s' % (dev, 'reports success although nothing could be written' if p.returncode == 0
+                                                                       else 'fails although the output was accepted'))
 
 
 def entry_before(snap, rel):
@@ -368,13 +386,23 @@ def macro_part(ck):
         return       # reported by prove() as a broken translator item
     header, footer = st['header'], st['footer']
     snippets = ['Aa ::= INTEGER (0..5)', 'Bb ::= SEQUENCE { a BOOLEAN }  Cc ::= ENUMERATED { x, y }', 'v INTEGER ::= 5', '',
-                'Mq DEFINITIONS AUTOMATIC TAGS ::= BEGIN Dd ::= NULL END', 'Ee ::= INTEGER (0..', 'Ff ::= §']
+                'Mq DEFINITIONS AUTOMATIC TAGS ::= BEGIN Dd ::= NULL END', 'Ee ::= INTEGER (0..', 'Ff ::= §',
+                # snippets that end in an identifier, a number, a comment: the appended END must stay a token of its own
+                'Bb ::= NULL  Aa ::= Bb', 'Aa ::= INTEGER -- a note', 'Aa ::= INTEGER -- a note --', 'v INTEGER ::= 5', 'Aa ::= INTEGER /* c */',
+                'Aa ::= ENUMERATED { x, y }\n', 'Aa ::= BOOLEAN\n-- trailing remark']
     cases = []
     for v in snippets:
         src = v if 'BEGIN' in v else header + v + footer
         cases.append({'op': 'compile', 'sources': [src], '_snippet': v})
+        # the same snippet in a module written out properly: the wrapper must not change the outcome
+        cases.append({'op': 'compile', 'sources': [v if 'BEGIN' in v else header + v + '\nEND\n'], '_snippet': v, '_canonical': True})
     res = run_harness(cases)
-    for c, r in zip(cases, res):
+    for c, r, rc in zip(cases[0::2], res[0::2], res[1::2]):
+        if bool(r.get('ok')) != bool(rc.get('ok')) or (r.get('ok') and r.get('generated') != rc.get('generated')):
+            ck.violation('impl-violation', {'snippet': c['_snippet'], 'footer': footer}, wrapped_ok=bool(r.get('ok')), module_ok=bool(rc.get('ok')),
+                         why='asn1! wraps the snippet into a module that does not compile like the same snippet in a module written out '
+                             '(header, snippet, line break, END)')
+    for c, r in zip(cases[0::2], res[0::2]):
         ck.note_case('macro:' + c['_snippet'])
         ck.count('macro')
         if 'panic' in r or 'crash' in r:
